@@ -449,6 +449,21 @@ def chk_blackbody(case, acc, seed):
             continue
         if not np.allclose(got, want, rtol=1e-12, atol=0):
             acc.violation('blackbody:sample', dict(case, wu2=wu2), f'Blackbody.sample in {wu2} / planck_radiance in {wu2} = {got / want}')
+    # the object after a unit conversion: still the Planck radiance, now in the units it was converted to
+    for vu2 in FNAMES:
+        for wu2 in ('nm', 'um'):
+            try:
+                bb2 = rad.Blackbody(wave, T, waveunit=wu, valueunit=vu)
+                bb2.to(vu2)
+                lam2 = np.array([4e-7, 8e-7, 3e-6])
+                got = np.asarray(bb2.sample(lam2 / IN_M[wu2], waveunit=wu2), float)
+                want = np.asarray(rad.planck_radiance(lam2 / IN_M[wu2], T, wu2, bb2.valueunit), float)
+            except Exception as e:
+                acc.violation(f'blackbody:after-to:raises:{type(e).__name__}', dict(case, vu2=vu2, wu2=wu2), repr(e))
+                continue
+            if not np.allclose(got, want, rtol=1e-9, atol=0):
+                acc.violation('blackbody:sample-after-to', dict(case, vu2=vu2, wu2=wu2),
+                              f'Blackbody({vu}).to({vu2}).sample in {wu2} / planck_radiance(valueunit={bb2.valueunit}) = {got / want}')
     acc.cls('blackbody')
     acc.case(case, outcome='blackbody')
 
